@@ -706,9 +706,9 @@ var (
 
 // c08Param makes a path_params entry for the wanted value: exact, or a glob / regex (from a pool, or derived
 // from the value) whose answers the driver records from the real matcher.
-func c08Param(r *vf.Rand, name, want string) [3]string {
+func c08Param(r *vf.Rand, name, want string, typed bool) [3]string {
 	switch {
-	case r.Chance(60):
+	case r.Chance(60) || !typed:
 		return [3]string{name, want, "exact"}
 	case r.Chance(50):
 		if r.Chance(50) && c08Printable(want) && !strings.ContainsAny(want, "*?[]{}\\,!") {
@@ -751,8 +751,14 @@ func c08Gen1(r *vf.Rand) c08Case {
 		}
 	}
 
+	// glob / regex path_params only on short paths: their oracle tables list every piece of the path in three
+	// decodings, which is quadratic in the length of the path
+	typed := nseg <= 6
+
 	// rarely one very long segment (the whole path > 2 KiB)
 	if r.Chance(2) {
+		typed = false
+
 		base[r.Intn(nseg)] = strings.Repeat(vf.Pick(r, []string{"ab%2Fc", "x%41", "y-", "y-", "z"}), r.Range(400, 600)) +
 			vf.Pick(r, []string{"", "%2F", "%2f", "%41"}) + c08RandValue(r)
 	}
@@ -799,7 +805,7 @@ func c08Gen1(r *vf.Rand) c08Case {
 						}
 
 						if want != "" {
-							rt.Params = append(rt.Params, c08Param(r, name, want))
+							rt.Params = append(rt.Params, c08Param(r, name, want, typed))
 						}
 					}
 
@@ -818,7 +824,7 @@ func c08Gen1(r *vf.Rand) c08Case {
 						}
 
 						if want != "" {
-							rt.Params = append(rt.Params, c08Param(r, name, want))
+							rt.Params = append(rt.Params, c08Param(r, name, want, typed))
 						}
 					}
 				case r.Chance(4):
